@@ -42,6 +42,11 @@ OPS = {
 for _f in ("sqrt", "exp", "log", "sin", "cos", "atan", "floor", "ceil", "abs"):
     for _an, _a in (("sum", "x * 2.5 + y"), ("diff", "x - k / 4"), ("neg", "-x * 0.5 + 2"), ("quot", "(x + 3) / (y + 2)"), ("diff2", "3.25 - x - y")):
         OPS[f"{_f}-of-{_an}"] = f"{_f}({_a})"
+# comparisons against negative literals (the printers' "simplify cannot decide" path) under every logical connective, and negated connectives
+OPS.update({"gt-neg": "if(x - 2 > -0.95, 1, 2)", "lt-neg": "if(x - 2 < -0.95, 1, 2)", "not-neg": "if(not (x - 2 > -0.95), 1, 2)", "not-neg-le": "if(not (x - 2 <= -0.95), y, k)",
+            "and-neg": "if(x - 2 > -1.05 and y - 1 < -0.48, 1, 2)", "or-neg": "if(x - 2 > -0.95 or y - 1 < -0.52, 1, 2)", "not-and": "if(not (x > 0.95 and y < 0.52), 1, 2)",
+            "not-or": "if(not (x > 1.05 or y < 0.48), 1, 2)", "not-eq": "if(not (x == 1.0), 1, 2)", "not-not": "if(not (not (x > 1.05)), 1, 2)",
+            "piecewise-neg": "piecewise(x - 2 < -1.05, 1, x - 2 < -0.95, 2, 3)", "eq-neg": "if(x - 2 == -1.0, 1, 2)"})
 OPS.update({"piecewise-repeated-value": "piecewise(x < 0.95, 3, x < 1.05, 2, 3)", "piecewise-4": "piecewise(x < 0.9, 1, x < 1.0, 2, x < 1.1, 1, 2)",
             "piecewise-overlap": "piecewise(x < 1.05, y, x < 0.95, k, y)", "if-same-branches": "if(x > 1.0, k, k) + if(y < 0.5, x, y)"})
 OPS.update({"neg-of-sum": "-(x + y * 2)", "sub-of-sum": "k - (x + y)", "sub-of-diff": "k - (x - y)", "div-of-prod": "k / (x * 2 + 1) / (y + 1)", "pow-of-neg": "(-x) ^ 2 - x ^ 2 * 3",
@@ -60,6 +65,16 @@ def family():
     for k, e in OPS.items():
         out.append((f"op|{k}", mmt({"c.x": 1.0, "c.y": 0.5}, f"dot(x) = {e}\ndot(y) = k - y\nk = 2.5\n")))
         out.append((f"op-in-intermediate|{k}", mmt({"c.x": 1.0, "c.y": 0.5}, f"dot(x) = w * 2\nw = {e}\ndot(y) = k - y\nk = 2.5\n")))
+    # a state with negative values compared directly with negative literals (membrane potential against -40): every relation, negated
+    # relations, connectives and piecewise chains; the perturbations of -1.0 fall on both sides of -0.95 / -1.05
+    NEG = {"gt": "if(v > -1.05, 1, 2)", "lt": "if(v < -0.95, y, k)", "ge": "if(v >= -1.0, 1, 2)", "le": "if(v <= -1.0, 1, 2)", "eq": "if(v == -1.0, 1, 2)", "neq": "if(v != -1.0, 1, 2)",
+           "not-gt": "if(not (v > -0.95), 0.5 * exp(-(v + 2) / 6.8), 0)", "not-lt": "if(not (v < -1.05), 1, 2)", "not-ge": "if(not (v >= -1.0), 1, 2)", "not-le": "if(not (v <= -1.0), y, k)",
+           "and": "if(v > -1.05 and v < -0.95, 1, 2)", "or": "if(v < -1.05 or v > -0.95, 1, 2)", "not-and": "if(not (v > -1.05 and y < 0.52), 1, 2)", "not-or": "if(not (v < -1.05 or y < 0.48), 1, 2)",
+           "and-not": "if(v > -1.05 and not (y > 0.52), 1, 2)", "piecewise": "piecewise(v < -1.05, 1, v < -0.95, 2, 3)", "piecewise-not": "piecewise(not (v > -1.05), 1, not (v > -0.95), 2, 3)",
+           "if-in-arith": "2 * if(v > -0.95, 1, 3) - if(not (v > -1.05), y, k) / 4", "literal-left": "if(-0.95 < v, 1, 2)", "not-literal-left": "if(not (-0.95 < v), 1, 2)"}
+    for k, e in NEG.items():
+        out.append((f"neg|{k}", mmt({"c.v": -1.0, "c.y": 0.5}, f"dot(v) = {e}\ndot(y) = k - y\nk = 2.5\n")))
+        out.append((f"neg-in-intermediate|{k}", mmt({"c.v": -1.0, "c.y": 0.5}, f"dot(v) = w * 2\nw = {e}\ndot(y) = k - y\nk = 2.5\n")))
     gate = lambda s, a, b: f"dot({s}) = alpha * (1 - {s}) - beta * {s}\n    alpha = {a}\n    beta = {b}\n"
     out.append(("nest|one-gate", mmt({"c.x": 0.3, "c.y": 0.5}, gate("x", "0.5 * k", "exp(-y)") + "dot(y) = k - y\nk = 2.5\n")))
     out.append(("nest|two-gates-same-local-names", mmt({"c.x": 0.3, "c.y": 0.5}, gate("x", "0.5 * k", "exp(-y)") + gate("y", "0.25 + x", "k / 5") + "k = 2.5\n")))
